@@ -331,6 +331,17 @@ impl CaseDriver for C05 {
     }
 }
 
+/// (signature, description, written text) of a failed to_string + open round trip
+pub fn round_trip_pub(lib: &LefLibrary, cx: &Cx) -> Result<(), (&'static str, String, String)> {
+    round_trip(lib, false, cx, None).map_err(|f| (f.sig(), f.what(), f.text().to_string()))
+}
+pub fn attribute_pub(lib: &LefLibrary, cx: &mut Cx) -> Option<&'static str> {
+    attribute(lib, cx)
+}
+
 pub fn driver() -> Box<dyn Driver> {
-    Box::new(c04::LefSpace(ByCase(C05)))
+    Box::new(Multi {
+        id: "C05",
+        parts: vec![("generated", Box::new(c04::LefSpace(ByCase(C05)))), ("faulted", Box::new(super::c11::C11 { image_of_reader: true }))],
+    })
 }
